@@ -5,9 +5,6 @@ import BigDec.Model.Basic
 namespace BigDec
 open Generated
 
-/-- `BigUint::bits` -/
-def bits (n : Nat) : Nat := if n = 0 then 0 else n.log2 + 1
-
 /-- operand forms: owned decimal, `&BigDecimal`, `BigDecimalRef`, `BigInt`, `&BigInt`,
     primitive integer, reference to primitive integer -/
 inductive Form | D | RD | Ref | BI | RBI | P | RP
